@@ -85,7 +85,16 @@ pub fn check(conv: u8, b: u8, rep: &mut Report) {
             match trap(|| CommandCode::from(bb)) {
                 Err(p) => rep.violation("CommandCode::from:panic", || format!("CommandCode::from({:#04x}) panicked: {}", b, p.long()), case),
                 Ok(v) => {
+                    let unknown_to_the_harness = (0..=0x14u8).all(|k| v != named_command(k)) && v != named_command(0xFF);
                     let num = v as u8;
+                    // a code point the pinned enumeration does not define may have been given a
+                    // variant of its own since (C19 fixes what a *defined* code point maps to, not
+                    // which ones are defined): accepted iff that variant is none of the 22 known
+                    // ones and its numeric value is the byte itself
+                    if b > 0x14 && num == b && unknown_to_the_harness {
+                        rep.class("command:defined-after-the-pinned-commit");
+                        return;
+                    }
                     if num != want {
                         rep.violation("CommandCode::from:wrong-value", || format!("CommandCode::from({:#04x}) as u8 = {:#04x}, expected {:#04x}", b, num, want), case);
                     }
@@ -107,7 +116,13 @@ pub fn check(conv: u8, b: u8, rep: &mut Report) {
                 Ok(v) => {
                     let by_name = mt_code(&v);
                     let same_variant = v == named_type(b);
+                    let unknown_to_the_harness = [0x00u8, 0x05, 0x06, 0x7E, 0x7F, 0xFF].iter().all(|k| v != named_type(*k));
                     let num = v as u8;
+                    if want == 0xFF && num == b && unknown_to_the_harness {
+                        // see CommandCode above (benign/C19-k adds the other DSP0239 types)
+                        rep.class("type:defined-after-the-pinned-commit");
+                        return;
+                    }
                     if num != want {
                         rep.violation("MessageType::from:wrong-value", || format!("MessageType::from({:#04x}) as u8 = {:#04x}, expected {:#04x}", b, num, want), case);
                     }
